@@ -40,14 +40,26 @@ CheckLine(ev) ==
 (* Parameter points beyond what the RFC construction can be re-evaluated for in TLC (n-k in the tens of      *)
 (* thousands: counters of the construction near their type widths).  The truth of the claim is decided on  *)
 (* the equations of the session as observed, which needs no re-construction: claimed => the equations sum  *)
-(* to {n-1}; both roles agree.  (C05's clause is not decided for these lines.)                            *)
+(* to {n-1}; both roles agree.  (Of C05's clause only what holds without any draw is decided: Shape.)      *)
 Light(ev) == ev.k + ev.r > 3100
 CheckClaim(ev) ==
     LET H    == HOf(ev)
         n    == ev.k + ev.r
         key  == <<ev.k, ev.r, ev.N1, ev.seed>>
         nullTruth == SumOfRows(H) = {n - 1}
-    IN  /\ IF "lastnull" \in DOMAIN ev /\ ev.lastnull \in {0, 1} THEN TRUE ELSE Msg(ev, "C15", "lastnull-query-failed")
+        (* what RFC 5170 fixes without any draw: the staircase, at least two source entries per equation (one if   *)
+        (* k = 1), N1 entries per source column before completion (so at least k*N1 in all, at most that plus two *)
+        (* per equation)                                                                                           *)
+        src(i)  == { c \in H[i] : c < ev.k }
+        nsrc    == FoldLeft(LAMBDA acc, i : acc + Cardinality(src(i)), 0, [ i \in 1 .. Len(H) |-> i ])
+        n1      == IF ev.N1 > ev.r THEN ev.r ELSE ev.N1
+        shape   == /\ Len(H) = ev.r
+                   /\ \A i \in 1 .. Len(H) :
+                        /\ { c \in H[i] : c >= ev.k } = (IF i = 1 THEN {ev.k} ELSE {ev.k + i - 2, ev.k + i - 1})
+                        /\ Cardinality(src(i)) >= (IF ev.k = 1 THEN 1 ELSE 2)
+                   /\ nsrc >= ev.k * n1 /\ nsrc <= ev.k * n1 + 2 * ev.r
+    IN  /\ IF shape THEN TRUE ELSE Msg(ev, "C05", "pchk-structure-not-rfc5170")
+        /\ IF "lastnull" \in DOMAIN ev /\ ev.lastnull \in {0, 1} THEN TRUE ELSE Msg(ev, "C15", "lastnull-query-failed")
         /\ IF ev.lastnull = 1 => nullTruth THEN TRUE ELSE Msg(ev, "C15", "lastnull-claimed-but-symbol-not-null")
         /\ IF key \in DOMAIN claims => claims[key] = ev.lastnull THEN TRUE ELSE Msg(ev, "C15", "lastnull-claim-differs-between-sessions")
         /\ claims' = IF key \in DOMAIN claims THEN claims ELSE (key :> ev.lastnull) @@ claims
